@@ -15,3 +15,11 @@ def declare(spec):
         'graceful_timeout': REAL, 'stop_signal': INT, 'stop_children': BOOL,
         'max_retry': INT,
     })
+    # ---- the exclusive slot (C10).  SyncHost = "whatever a synchronized method is bound to":
+    # a Watcher (has .arbiter) or an Arbiter (has ._exclusive_running_command) or neither.
+    spec.Class('SyncHost', fields={
+        'arbiter': Ref('SyncHost'), '_restarting': BOOL, '_exclusive_running_command': VAL,
+        'has_arbiter_attr': BOOL, 'has_slot_attr': BOOL,
+    }, hasattr_fields={'arbiter': 'has_arbiter_attr', '_exclusive_running_command': 'has_slot_attr'})
+    spec.Class('SyncBody', fields={})
+    spec.ghost('release_on_done', Dict(INT, Ref('SyncHost')))
